@@ -97,6 +97,25 @@ EXC_TYPES = {'ValueError': ValueError, 'KeyError': KeyError, 'CustomErr': Custom
              'UnpicklableErr': UnpicklableErr, 'ZeroDivisionError': ZeroDivisionError}
 
 
+def _control_flow_exceptions() -> dict:
+    """Exception types that runners, caches and the coordinator themselves use for control flow: a task's own run() may raise any of
+    them, and that is still just a failed task."""
+    import queue
+
+    import labtech.exceptions as le
+    out = {'IndexError': IndexError, 'StopIteration': StopIteration, 'Empty': queue.Empty, 'TimeoutError': TimeoutError,
+           'FileNotFoundError': FileNotFoundError, 'AssertionError': AssertionError, 'RuntimeError': RuntimeError}
+    for name in ('TaskNotFound', 'CacheError', 'TaskDiedError', 'LabError', 'StorageError', 'RunnerError'):
+        if hasattr(le, name):
+            out[name] = getattr(le, name)
+    return out
+
+
+CONTROL_FLOW_EXCS = _control_flow_exceptions()
+EXC_TYPES.update(CONTROL_FLOW_EXCS)
+CONTROL_FLOW_MODES = ['raise:' + k for k in sorted(CONTROL_FLOW_EXCS)]
+
+
 def walk_tasks(v):
     """Every task instance inside a (normalised) parameter value, in traversal order. Harness-side walker,
     deliberately not labtech's find_tasks_in_param."""
@@ -122,7 +141,12 @@ def _act(self, mode: str):
     if mode in ('ok', 'probe', 'stubborn'):
         return
     if mode.startswith('raise:'):
-        raise EXC_TYPES[mode.split(':', 1)[1]](f'boom {self.name}')
+        cls = EXC_TYPES[mode.split(':', 1)[1]]
+        try:
+            exc = cls(f'boom {self.name}')
+        except TypeError:
+            exc = cls()       # e.g. TaskDiedError takes no message
+        raise exc
     if mode.startswith('flag:'):
         if (self.context or {}).get(mode.split(':', 1)[1]):
             raise CustomErr(f'flagged {self.name}')
